@@ -264,6 +264,33 @@ static void do_walksugar(const std::string &line, const J &in, FILE *out) {
     fprintf(out, "%s\n", s.c_str());
 }
 
+
+// ---------------------------------------------------------------- C17: metadata blocks built by the REAL macros
+// The ports below are written with rParamI / rParamF / rOption / rToggle / rString / rArrayI / rAction / rSelf and the property macros
+// (rLinear, rLog, rDefault, rPresets, rDefaultDepends, rDepends, rOptions, rShort, rProp, rMap, rEnabledBy, rDoc); the driver writes the raw
+// bytes of each port's metadata (up to and including the double NUL) as inputs for the "meta" mode; what the macros are documented to
+// produce is stated in checks/C17.py (MACRO_PORTS) and compared by the "block" clause of the judge.
+namespace mmacro {
+struct M { int a = 0; float f = 0; int o = 0; bool t = false; char s[8] = ""; char arr[3] = {0, 0, 0}; void act() {} static const rtosc::Ports ports; };
+#define rObject M
+const rtosc::Ports M::ports = {
+    rSelf(M, rEnabledBy(t)),
+    rParamI(a, rLinear(0, 127), rDefault(5), rShort("vol"), "volume"),
+    rParamF(f, rLog(0.01, 100), rDefaultDepends(a), rPresets(1.0, 2.5, 4), "freq: in Hz = cycles"),
+    rOption(o, rOptions(sine, saw, white noise), rDefault(saw), rProp(no learn), "shape"),
+    rToggle(t, rDefault(true), rProp(internal), rMap(unit, Hz), "a=b:c"),
+    rString(s, 8, rDefault("abc"), "str"),
+    rArrayI(arr, 3, rLinear(0, 10), rDefault([1 2 3]), rDepends(a, t), "array"),
+    rAction(act, rProp(alias), ""),
+    rParamI(a, rLogWithLogmin(0, 100, 0.5), rNoDefaults, "x"),
+};
+#undef rObject
+}
+static void do_metamacro(FILE *out) {
+    for (const rtosc::Port &p : mmacro::M::ports) { const char *m = p.metadata; size_t n = 0;
+        if (m && *m) { while (m[n] || m[n + 1]) ++n; n += 2; if (n < 2) n = 2; }      // up to and including the double NUL (a valueless last entry ends with it as well)
+        JW w; w.obj().kbytes("name", (const uint8_t *)p.name, strlen(p.name)).kbytes("block", (const uint8_t *)m, n).end_obj(); fprintf(out, "%s\n", w.s.c_str()); }
+}
 // ---------------------------------------------------------------- C17 metadata
 static void do_meta(const J &in, FILE *out) {
     std::vector<uint8_t> block = in["block"].bytes();
@@ -333,6 +360,7 @@ int main(int argc, char **argv) {
     if (argc < 4) return 2;
     std::string mode = argv[1]; FILE *f = fopen(argv[2], "r"); FILE *out = fopen(argv[3], "w"); if (!f || !out) return 2;
     std::string line;
+    if (mode == "metamacro") { do_metamacro(out); fclose(out); return 0; }
     while (read_line(f, line)) { if (line.empty()) continue; J j = jparse(line); if (mode == "dispatch") do_dispatch(line, j, out); else if (mode == "walk") do_walk(line, j, out); else if (mode == "walksugar") do_walksugar(line, j, out); else if (mode == "meta") do_meta(j, out); else if (mode == "collapse") do_collapse(j, out); else if (mode == "search") do_search(line, j, out); }
     fclose(out); return 0;
 }
